@@ -225,7 +225,10 @@ def judge(w, case):
             n = case.get("entries", 1)
             text = ""
             for i in range(n):
-                text += f"[[entries]]\nname = {tomlgen.basic_string(['dep', 'a b'][i % 2])}\n\n[entries.metadata]\n{body}\n"
+                text += f"[[entries]]\nname = {tomlgen.basic_string(PLAN_NAMES(n)[i])}\n\n[entries.metadata]\n{body}\n"
+                if n >= 3:
+                    # same-named neighbours differ in their metadata: every entry is an entry
+                    text += f"idx = {i}\n"
             if n == 0:
                 text = ""
             open(w.p("bp_plan.toml"), "w").write(text)
@@ -392,11 +395,12 @@ def judge(w, case):
             n = case.get("entries", 1)
             if len(c["plan"]) != n:
                 bad("plan-entries-lost", f"context has {len(c['plan'])} plan entries, the plan file has {n}")
-            for i, e in enumerate(c["plan"]):
-                if e["name"] != ["dep", "a b"][i % 2]:
-                    bad("plan-entry-name", f"entry name {e['name']!r}")
-                if not tomlgen.same(tomlgen.from_vbjson(e["metadata"]), want):
-                    bad("plan-metadata-altered", f"plan entry metadata in context {e['metadata']} differs from the file ({want})")
+            for i, e in enumerate(c["plan"][:n]):
+                if e["name"] != PLAN_NAMES(n)[i]:
+                    bad("plan-entry-name", f"entry {i} name {e['name']!r}, the file says {PLAN_NAMES(n)[i]!r}")
+                want_i = want if n < 3 else ("t", dict(want[1], idx=("i", i)))
+                if not tomlgen.same(tomlgen.from_vbjson(e["metadata"]), want_i):
+                    bad("plan-metadata-altered", f"plan entry {i} metadata in context {e['metadata']} differs from the file ({want_i})")
         elif where == "store":
             if c["store"] is None or not tomlgen.same(tomlgen.from_vbjson(c["store"]), want):
                 bad("store-altered", f"store in context {c['store']} differs from store.toml ({want})")
@@ -417,6 +421,11 @@ def judge(w, case):
 
 
 VB_PATH = None
+
+
+def PLAN_NAMES(n):
+    # from three entries on, neighbours share a name (the lifecycle writes one entry per requirement)
+    return ["dep", "a b"] * 2 if n < 3 else ["dep", "dep", "a b", "a b", "dep"][:n]
 
 
 def tuple_from_json(j):
@@ -475,7 +484,7 @@ def cases(thorough):
     for val in tomlgen.all_values():
         for where in ("plan", "store", "descriptor"):
             out.append({"kind": "toml", "where": where, "value": tuple_to_json(val)})
-    for n in (0, 2):
+    for n in (0, 2, 3, 5):
         out.append({"kind": "toml", "where": "plan", "entries": n, "value": tuple_to_json(("s", "x"))})
     for where in ("plan", "store"):
         for val in (("s", "x"), ("a", [("i", 1), ("s", "y" * 70000)])):
@@ -537,7 +546,7 @@ def run(ctx):
     res.cov("distinct_nontrivial", nontrivial)
     res.cov("distinct_outcomes", sorted(outcomes))
     res.cov("determinism_replays", 6)
-    res.cov("rule", "platform env (each name also set, differently, in the process's own environment): all sets of <=2 (thorough: <=3 over a reduced kind set) entries with distinct names over 8 names (dots, leading dots, space, '=', non-ASCII, non-UTF-8) x 9 kinds (4 file contents, directory, symlink to file/dir, dangling, non-UTF-8 content); env/platform dir missing; values of 2^k-1, 2^k, 2^k+1 bytes for k in {12,16,17,20}; target: every present/absent x value combination of the five CNB_TARGET_* variables (quick: <=2 non-default) over values {linux, '', 'a b', non-UTF-8, windows, a value in double quotes, a value padded with white space}; TOML: every value kind (18 strings, ints incl. extremes, floats incl. inf/nan/-0, bools, 4 datetime kinds, arrays/tables depth 2) in plan entry metadata, store and descriptor metadata, and the plan and the store handed over as a FIFO (reported size 0; the descriptor is legitimately read more than once; one short and one 70 kB document); all through the real detect/build runtime; directory spellings: layers / platform / buildpack directory each given plain, through a symlink, relative to the working directory, or with redundant segments (4^3 build + 4^2 detect cases), the context must name them as supplied and still find env, store and descriptor; in-process sequences: every sequence of 2..3 (thorough: ..4) programmatic libcnb_runtime_detect/libcnb_runtime_build calls in ONE process over 12 symbols (2 worlds x 3 content variants of descriptor, platform env, plan, store and target variables, one of them with the descriptor removed, x 2 phases), each step (result and context handed to the buildpack code; the files it leaves are compared by C05) compared with the same invocation run alone in a fresh process. non-trivial = case with at least one non-default input")
+    res.cov("rule", "platform env (each name also set, differently, in the process's own environment): all sets of <=2 (thorough: <=3 over a reduced kind set) entries with distinct names over 8 names (dots, leading dots, space, '=', non-ASCII, non-UTF-8) x 9 kinds (4 file contents, directory, symlink to file/dir, dangling, non-UTF-8 content); env/platform dir missing; values of 2^k-1, 2^k, 2^k+1 bytes for k in {12,16,17,20}; target: every present/absent x value combination of the five CNB_TARGET_* variables (quick: <=2 non-default) over values {linux, '', 'a b', non-UTF-8, windows, a value in double quotes, a value padded with white space}; TOML: every value kind (18 strings, ints incl. extremes, floats incl. inf/nan/-0, bools, 4 datetime kinds, arrays/tables depth 2) in plan entry metadata (plans of 0, 1, 2, 3 and 5 entries, neighbours sharing a name and differing in metadata), store and descriptor metadata, and the plan and the store handed over as a FIFO (reported size 0; the descriptor is legitimately read more than once; one short and one 70 kB document); all through the real detect/build runtime; directory spellings: layers / platform / buildpack directory each given plain, through a symlink, relative to the working directory, or with redundant segments (4^3 build + 4^2 detect cases), the context must name them as supplied and still find env, store and descriptor; in-process sequences: every sequence of 2..3 (thorough: ..4) programmatic libcnb_runtime_detect/libcnb_runtime_build calls in ONE process over 12 symbols (2 worlds x 3 content variants of descriptor, platform env, plan, store and target variables, one of them with the descriptor removed, x 2 phases), each step (result and context handed to the buildpack code; the files it leaves are compared by C05) compared with the same invocation run alone in a fresh process. non-trivial = case with at least one non-default input")
     res.cov("exhaustive", True)
     res.sample(cs[3])
     res.sample(cs[len(cs) // 2])
